@@ -50,6 +50,8 @@ pub fn classes_vec(c: &Classes) -> Vec<(&'static str, u64)> {
         ("cases_with_no_observer_round", b(c.no_observer_rounds > 0)),
         ("cases_with_invalidation", b(c.invalidated > 0)),
         ("cases_with_sibling_handler_cut_short_by_disallow", b(c.siblings_cut_short > 0)),
+        ("cases_with_variable_created_by_a_bind_closure", b(c.inner_vars > 0)),
+        ("cases_with_read_only_probe", b(c.probes > 0)),
         ("stabilises", c.stabilises as u64),
         ("user_function_runs", c.runs as u64),
         ("actions", c.actions as u64),
@@ -87,6 +89,8 @@ pub fn prof_c04(t: Tier) -> Profile {
     p.writers = true;
     p.observer_churn = 2;
     p.read_all = true;
+    p.probes = true;
+    p.inner_vars = true;
     sized(p, t)
 }
 pub fn prof_c05(t: Tier) -> Profile {
